@@ -134,6 +134,10 @@ pub fn flavours(k: &KeyPlan) -> Vec<(String, bool)> {
     if const_accessible(k) {
         v.push(("const".to_string(), false));
     }
+    if k.sig.is_empty() {
+        // a subscribed observer: a Memo over the rendered `t!` view, created before any locale switch
+        v.push(("memo_t".to_string(), true));
+    }
     for p in 1..n {
         v.push((format!("scope_i18n{p}:t"), true));
         v.push((format!("scope_i18n{p}:t_string"), false));
@@ -151,7 +155,13 @@ pub fn key_fn(k: &KeyPlan, nlocales: usize) -> String {
     let full = sg.join(".");
     let a = &k.assigns[0];
     let _ = writeln!(s, "fn key_{}(i18n: I18nContext<Locale>) {{", k.idx);
-    let _ = writeln!(s, "    for li in 0..{} {{ let l = loc(li); i18n.set_locale(l);", nlocales);
+    if k.sig.is_empty() {
+        let _ = writeln!(s, "    let memo_c9 = Memo::new(move |_| html(t!(i18n, {full})));");
+        let _ = writeln!(s, "    let _ = memo_c9.get_untracked();");
+    }
+    // the locale is written silently first and then through the notifying setter with the same value: subscribers
+    // must still be told
+    let _ = writeln!(s, "    for li in 0..{} {{ let l = loc(li); i18n.set_locale_untracked(l); i18n.set_locale(l);", nlocales);
     for ci in count_indices(a) {
         let (sa, va) = args_for(k, a, ci);
         let tag = |f: &str| format!("{ci}:{f}");
@@ -164,6 +174,9 @@ pub fn key_fn(k: &KeyPlan, nlocales: usize) -> String {
         let _ = writeln!(s, "        emitf({}, li, {:?}, &format!(\"{{}}\", t_display!(i18n, {full}{sa})));", k.idx, tag("t_display"));
         let _ = writeln!(s, "        emitf({}, li, {:?}, &format!(\"{{}}\", tu_display!(i18n, {full}{sa})));", k.idx, tag("tu_display"));
         let _ = writeln!(s, "        emitf({}, li, {:?}, &format!(\"{{}}\", td_display!(l, {full}{sa})));", k.idx, tag("td_display"));
+        if k.sig.is_empty() {
+            let _ = writeln!(s, "        emitf({}, li, {:?}, &memo_c9.get_untracked());", k.idx, tag("memo_t"));
+        }
         if const_accessible(k) {
             let chain: String = sg.iter().map(|x| format!(".{x}()")).collect();
             let _ = writeln!(s, "        emitf({}, li, {:?}, &format!(\"{{}}\", l.get_keys_const(){chain}.inner()));", k.idx, tag("const"));
